@@ -79,6 +79,11 @@ CHAIN_TEMPLATES = {
     'filler-failure': ('<div><hide tal:condition="False"><p metal:define-macro="m">A ${1 + 1}<b metal:define-slot="s">d</b>'
                        '${L(1)}</p></hide>\n<u metal:use-macro="macros[\'m\']">\n  <i metal:fill-slot="s">x ${L(0)}</i></u>'
                        '</div>', 2, {0: ['L(0)', "macros['m']"], 1: ['L(1)', "macros['m']"]}),
+    # the template renders itself from inside an expression: every enclosing call site is listed
+    'recursive-render': ('<div tal:define="d d + 1">\n ${L(0) if d == 3 else d}\n'
+                         ' ${structure: template.render(d=d, L=L) if d != 3 else \'\'}</div>', 1,
+                         {0: ['L(0) if d == 3 else d', "template.render(d=d, L=L) if d != 3 else ''",
+                              "template.render(d=d, L=L) if d != 3 else ''"]}),
     'recursive-macro': ('<div metal:define-macro="tree" tal:define="d d + 1">\n ${L(0) if d == 3 else d}\n'
                         ' <b tal:condition="d &lt; 3" metal:use-macro="template.macros[\'tree\']" />\n</div>', 1,
                         {0: ['L(0) if d == 3 else d', "template.macros['tree']", "template.macros['tree']"]}),
@@ -97,12 +102,25 @@ FILES['macro-chain-composite'] = {
     'lib.pt': '<section>\n   <p tal:content="L(0)">x</p>\n <metal:b use-macro="nosuch | load: leaf.pt" /></section>',
     'leaf.pt': '<em>\n\n  ${L(1)}</em>',
 }
+FILES['same-name-cached'] = {
+    # two sites with files of the same name and content, compiled through one on-disk module cache
+    'a/index.pt': '<html>\n <div metal:use-macro="load: layout.pt" />${L(1)}</html>',
+    'a/layout.pt': '<section>\n  <p tal:content="L(0)">x</p></section>',
+    'b/index.pt': '<html>\n <div metal:use-macro="load: layout.pt" />${L(1)}</html>',
+    'b/layout.pt': '<section>\n  <p tal:content="L(0)">x</p></section>',
+}
+MAIN = {'same-name-cached': 'b/index.pt'}
+FIRST = {'same-name-cached': 'a/index.pt'}
 # (file, expression) of each leaf and the call chain (file, expression text) from innermost outwards
 CHAINS = {
     'macro-chain': {
         0: [('lib.pt', 'L(0)'), ('main.pt', 'load: lib.pt')],
         1: [('leaf.pt', 'L(1)'), ('lib.pt', 'load: leaf.pt'), ('main.pt', 'load: lib.pt')],
         2: [('main.pt', 'L(2)')],
+    },
+    'same-name-cached': {
+        0: [('b/layout.pt', 'L(0)'), ('b/index.pt', 'load: layout.pt')],
+        1: [('b/index.pt', 'L(1)')],
     },
     'macro-chain-composite': {
         0: [('lib.pt', 'L(0)'), ('main.pt', 'load: ${nm}.pt')],
@@ -175,9 +193,17 @@ def prepare(cfg):
         d = tempfile.mkdtemp(prefix='verif-c12-')
         atexit.register(shutil.rmtree, d, True)
         for fn, text in FILES[name].items():
+            os.makedirs(os.path.dirname(os.path.join(d, fn)), exist_ok=True)
             with open(os.path.join(d, fn), 'w') as f:
                 f.write(text)
-        STATE['tpl'] = PageTemplateFile(os.path.join(d, 'main.pt'))
+        kw = {}
+        if name in FIRST:
+            from chameleon.loader import ModuleLoader
+            os.makedirs(os.path.join(d, 'cache'))
+            kw['loader'] = ModuleLoader(os.path.join(d, 'cache'))
+            # the other site is compiled (and stored) first
+            PageTemplateFile(os.path.join(d, FIRST[name]), **kw).render(L=lambda k: 1, d=0, nm='lib')
+        STATE['tpl'] = PageTemplateFile(os.path.join(d, MAIN.get(name, 'main.pt')), **kw)
         STATE['n'] = len(CHAINS[name])
         exp = {}
         for k, chain in CHAINS[name].items():
